@@ -354,7 +354,7 @@ def run(ctx, res):
             continue
         f, got = tabs[name]
         exp = sorted(spec.get(name, []), key=lambda r: json.dumps(r, sort_keys=True))
-        if got == exp:
+        if c17.tables_equal(exp, got):
             res.ok(rid, "setter/%s" % name, f.loc())
         else:
             res.violation(rid, "setter/%s" % name, "Settings::%s side-effect table differs from the documented one" % name,
